@@ -193,13 +193,20 @@ static void one_case(long idx, void *arg)
         case 3: x.p.auth = false; x.p.check_crl = false; x.p.verify_name = false; what = "tls.auth=false with an explicit tls.tc"; break;
         default: x.p.auth = true; x.p.check_crl = false; x.p.verify_name = false; what = "tls.check_crl=false with an explicit tls.crl"; break;
         }
+        /* the two halves of an inconsistent policy may also arrive separately: the demanding half on the server socket (consistent on its own),
+         * tls.auth=false only in the map given to xcm_accept_a */
+        /* (trusted CAs, CRLs or names merely inherited from the server socket and made redundant by the accept map are dropped by design: no error) */
+        bool split = (c.invalid_kind == 0 || c.invalid_kind == 1) && vrnd_p(&r, 45);
+        if (split) x.p.auth = true;
         struct xcm_attr_map *m = xcm_attr_map_create(); xcm_attr_map_add_bool(m, "xcm.blocking", false); if (c.tp == TP_BTLS) xcm_attr_map_add_str(m, "xcm.service", "bytestream");
         fill_map(m, &x, dir, "inv", 3, false, false);
         if (c.invalid_kind == 2) xcm_attr_map_del(m, "tls.peer_names");
         if (c.invalid_kind == 3) xcm_attr_map_add_bin(m, "tls.tc", tc_A, strlen(tc_A));
         if (c.invalid_kind == 4) xcm_attr_map_add_bin(m, "tls.crl", crl_all, strlen(crl_all));
-        bool on_server = vrnd_p(&r, 50) && c.invalid_kind != 2;     /* names are only required of the server side when a connection is accepted */
-        char a[64]; snprintf(a, sizeof a, "%s:127.0.0.1:%d", on_server ? spr : cpr, on_server ? 0 : 9);
+        bool on_server = (split || vrnd_p(&r, 50)) && c.invalid_kind != 2;     /* names are only required of the server side when a connection is accepted */
+        char a[96]; snprintf(a, sizeof a, "%s:127.0.0.1:%d", on_server ? spr : cpr, on_server ? 0 : 9);
+        /* the names to verify may also come from the address: host name in the address, no explicit tls.peer_names */
+        if (c.invalid_kind == 1 && !on_server && vrnd_p(&r, 50)) { xcm_attr_map_del(m, "tls.peer_names"); snprintf(a, sizeof a, "%s:inv.c09.verif.test:9", cpr); vobs("invalid_combinations_with_name_from_address", 1); }
         struct xcm_socket *s; int se;
         if (on_server) { SCX("xcm_server_a", 2); s = xcm_server_a(a, m); se = errno; vs_leave(); } else { SCX("xcm_connect_a", 0); s = xcm_connect_a(a, m); se = errno; vs_leave(); }
         vobs("invalid_combinations_tried", 1);
@@ -211,8 +218,11 @@ static void one_case(long idx, void *arg)
             char ca[96]; snprintf(ca, sizeof ca, "%s:127.0.0.1:%s", cpr, strrchr(xcm_local_addr(s), ':') + 1);
             struct xcm_socket *yc; { SCX("xcm_connect_a", 0); yc = xcm_connect_a(ca, ym); vs_leave(); }
             struct xcm_socket *ya = NULL; int ae = EAGAIN;
-            for (int i = 0; yc && i < 2000 && !ya && ae == EAGAIN; i++) { { SCX("xcm_finish", 0); xcm_finish(yc); vs_leave(); } SCX("xcm_accept_a", 1); ya = xcm_accept(s); ae = errno; vs_leave(); if (!ya && ae == EAGAIN) { struct pollfd none; vs_real_poll(&none, 0, 1); } }
-            if (ya) { cv("invalid-combination-accepted", "server+accept", "%s was accepted by xcm_server_a and xcm_accept produced a connection socket", what); SCX("xcm_close", 1); xcm_close(ya); vs_leave(); }
+            struct xcm_attr_map *am = xcm_attr_map_create(); if (split) { xcm_attr_map_add_bool(am, "tls.auth", false); vobs("invalid_split_server_then_accept_map", 1); }
+            for (int i = 0; yc && i < 2000 && !ya && ae == EAGAIN; i++) { { SCX("xcm_finish", 0); xcm_finish(yc); vs_leave(); } SCX("xcm_accept_a", 1); ya = xcm_accept_a(s, am); ae = errno; vs_leave(); if (!ya && ae == EAGAIN) { struct pollfd none; vs_real_poll(&none, 0, 1); } }
+            xcm_attr_map_destroy(am);
+            if (ya && split) { cv("invalid-combination-accepted", "server-then-accept-map", "%s: the demanding half was set on the server socket, tls.auth=false in the xcm_accept_a map: a connection socket was produced", what); SCX("xcm_close", 1); xcm_close(ya); vs_leave(); }
+            else if (ya) { cv("invalid-combination-accepted", "server+accept", "%s was accepted by xcm_server_a and xcm_accept produced a connection socket", what); SCX("xcm_close", 1); xcm_close(ya); vs_leave(); }
             else if (ae != EINVAL) cv("invalid-combination-errno", "server+accept", "%s: xcm_server_a succeeded and xcm_accept failed with errno %d (%s), expected EINVAL", what, ae, strerror(ae));
             else vobs("invalid_combinations_refused_at_accept", 1);
             if (yc) { SCX("xcm_close", 0); xcm_close(yc); vs_leave(); }
